@@ -216,5 +216,4 @@ def _show(it):
 
 
 def replay(ctx, path):
-    print(open(path).read())
-    return 0
+    return core.generic_replay(ctx, path, run)
